@@ -29,3 +29,58 @@ def stepMarshal (args : List Sx) : String × String × Bool :=
   | _ => ("bad-op", "-", false)
 
 end Jsonapi.Driver
+
+namespace Jsonapi.Driver
+open Jsonapi
+
+-- decErrorObj lives in Driver/Unmarshal; the document decoder needs its own copy of the
+-- small pieces to keep the import order simple.
+def decErrorObjM (x : Sx) : ErrorObj :=
+  match x.items with
+  | [id, code, status, title, detail, links, source, m] =>
+    { id := id.bytes!, code := code.bytes!, status := status.bytes!, title := title.bytes!,
+      detail := detail.bytes!, links := decPairs Sx.bytes! links, source := decMeta source, emeta := decMeta m }
+  | _ => default
+
+def decDocData (x : Sx) : DocData :=
+  match x with
+  | .atom "none" => .none
+  | .atom "other" => .other
+  | .list [.atom "res", r] => .res (decResView r)
+  | .list [.atom "col", tn, l] => .col tn.bytes! (l.items.map decResView)
+  | .list [.atom "ident", id, t] => .ident id.bytes! t.bytes!
+  | .list [.atom "idents", n, l] => .idents n.bool! (l.items.filterMap (fun p => match p.items with
+      | [a, b] => some (a.bytes!, b.bytes!) | _ => none))
+  | _ => .other
+
+def decDocument (x : Sx) : Document :=
+  match x.items with
+  | [d, incs, links, rd, m, errs, pre] =>
+    { data := decDocData d, included := incs.items.map decResView,
+      links := links.items.filterMap (fun p => match p.items with
+        | [k, h, lm] => some (k.bytes!, { href := h.bytes!, lmeta := decMeta lm }) | _ => none),
+      relData := decFieldsMap rd, dmeta := decMeta m, errors := errs.items.map decErrorObjM,
+      prePath := pre.bytes! }
+  | _ => default
+
+def docDom (d : Document) : Bool :=
+  (match d.data with
+    | .res r => resDom r
+    | .col _ ms => ms.all resDom
+    | _ => true) && d.included.all resDom
+
+def stepMarshalDoc (args : List Sx) : String × String × Bool :=
+  match args with
+  | [dx, fields, self] =>
+    let d := decDocument dx
+    let model := match marshalDocument d (decFieldsMap fields) self.bytes! with
+      | .ok (j, _) => (encJson j).toStr
+      | .err => "err"
+      | .panic => "panic"
+    let spec := match Spec.documentTree d (decFieldsMap fields) self.bytes! with
+      | some j => (encJson j).toStr
+      | none => "err"
+    (model, spec, docDom d)
+  | _ => ("bad-op", "-", false)
+
+end Jsonapi.Driver
